@@ -49,6 +49,8 @@ from rt import c04_sphere as S
 from rt.common import call_isolated
 
 TOL = 1e-12
+# workers are single-threaded: 14 of them already fill the machine (BLAS threads would oversubscribe it)
+_ONE_THREAD = {"OMP_NUM_THREADS": "1", "OPENBLAS_NUM_THREADS": "1", "MKL_NUM_THREADS": "1"}
 CAP = 5
 N_SUB = 24
 
@@ -183,7 +185,7 @@ def run(ctx):
 
     def do(job):
         coordsys, tiles = job
-        return job, call_isolated("rt.c05", "work", {"coordsys": coordsys, "tiles": tiles, "seed": ctx.seed}, timeout)
+        return job, call_isolated("rt.c05", "work", {"coordsys": coordsys, "tiles": tiles, "seed": ctx.seed}, timeout, env=_ONE_THREAD)
 
     counts = {}
     with ThreadPoolExecutor(max_workers=nworkers) as ex:
